@@ -1,21 +1,28 @@
 """C19 - DCC algorithms respect TS 102 687 state, rate and duty-cycle limits.
 
-Decides: internal agreement of the Annex A tables (contiguous bands in state order, rate x T_off = 1000), the
-single-step state move and output row of the NEW state, the CBR range check, the LIMERIC update as a formula identity
-(polynomial normal form of equations 1-5 incl. the clamps), that every normal exit returns the freshly stored delta,
-the gate equations B.1/B.2 as formula identities with clamps [25 ms, 1 s], admit only when open and after storing both
-times, rescale only while closed.
+Decides: internal agreement of the Annex A tables (contiguous bands in state order, rate x T_off = 1000), which table the
+constructor selects for every assumed T_on, the single-step state move and output row of the NEW state, the CBR range
+check, the LIMERIC update as a formula identity (polynomial normal form of equations 1-5 incl. the clamps), that every
+normal exit returns the freshly stored delta, the gate equations B.1/B.2 as formula identities with clamps [25 ms, 1 s],
+admit only when open and after storing both times, rescale only while closed, delta stored on every normal exit.
 Does not decide convergence within four evaluations (follows from one-step + band agreement only informally) nor
 floating-point rounding.
+
+The small, loop-free methods (DccReactive.__init__/update, DccAdaptive.update, GateKeeper.*) are decided on the set of
+their symbolic paths (`sym_paths`): every path carries its branch conditions and the values stored, both written in
+terms of the state at entry, so a rule never depends on how the source spells locals, branches or operand order.
 """
 from __future__ import annotations
 
 import ast
+import copy
+import itertools
 import re
 
 from ..prog import AnalysisError, ClassInfo, FuncInfo, dotted, unparse
-from ..absint import Poly, to_poly
+from ..absint import MiniEval, Poly, to_poly
 from ..match import pretty
+from .. import sem
 
 PROP = "C19"
 RX = "management.dcc_reactive"
@@ -26,28 +33,373 @@ def norm(s):
     return re.sub(r"\s+", "", s)
 
 
-def _strip_versions(name: str) -> str:
-    return pretty(name)
+def _load(e: ast.AST) -> ast.AST:
+    e = copy.deepcopy(e)
+    for n in ast.walk(e):
+        if hasattr(n, "ctx"):
+            n.ctx = ast.Load()
+    return e
+
+
+def _parse(src: str) -> ast.AST:
+    return ast.parse(src, mode="eval").body
+
+
+# ------------------------------------------------------------------------------------------------ symbolic paths
+class SymPath:
+    """One path through a loop-free function body.
+
+    conds  : [(test expression, polarity)] in execution order
+    env    : name / dotted attribute chain -> value, at the end of the path
+    stores : [(name, value, statement)] in execution order (every assignment made on the path)
+    value  : returned / raised expression (None for a bare return or falling off the end)
+    All expressions are written in terms of the parameters and the object state AT ENTRY."""
+    __slots__ = ("kind", "value", "stmt", "conds", "env", "stores")
+
+    def __init__(self, kind, value, stmt, conds, env, stores):
+        self.kind, self.value, self.stmt, self.conds, self.env, self.stores = kind, value, stmt, list(conds), dict(env), list(stores)
+
+    def stored(self, name: str) -> list:
+        return [(v, s) for n, v, s in self.stores if n == name]
+
+
+def subst(e: ast.AST, env: dict) -> ast.AST:
+    class S(ast.NodeTransformer):
+        def visit_Name(self, n):
+            if isinstance(n.ctx, ast.Load) and n.id in env:
+                return copy.deepcopy(env[n.id])
+            return n
+
+        def visit_Attribute(self, n):
+            d = dotted(n)
+            if d is not None and isinstance(n.ctx, ast.Load) and d in env:
+                return copy.deepcopy(env[d])
+            return self.generic_visit(n)
+
+        def visit_Lambda(self, n):
+            return n
+    return S().visit(copy.deepcopy(e))
+
+
+def sym_paths(fi: FuncInfo, limit: int = 600) -> list:
+    """All paths of a function made of assignments, if/else, with, literal-tuple for loops, return and raise."""
+    out: list = []
+
+    def opaque(name, stmt):
+        return ast.Name(id=f"{name.replace('.', '_')}__opaque_L{getattr(stmt, 'lineno', 0)}", ctx=ast.Load())
+
+    def bind(st, tgt, val, stmt):
+        conds, env, stores = st
+        if isinstance(tgt, ast.Name):
+            name = tgt.id
+        elif isinstance(tgt, ast.Attribute):
+            base = dotted(subst(_load(tgt.value), env))
+            if base is None:
+                return st
+            name = f"{base}.{tgt.attr}"
+        elif isinstance(tgt, (ast.Tuple, ast.List)):
+            if isinstance(val, (ast.Tuple, ast.List)) and len(val.elts) == len(tgt.elts):
+                for t, v in zip(tgt.elts, val.elts):
+                    st = bind(st, t, v, stmt)
+            else:
+                for t in tgt.elts:
+                    if isinstance(t, (ast.Name, ast.Attribute)):
+                        st = bind(st, t, opaque(dotted(t) or "x", stmt), stmt)
+            return st
+        elif isinstance(tgt, ast.Subscript):
+            return (conds, env, stores + (("[]" + unparse(subst(_load(tgt), env)), val, stmt),))
+        else:
+            return st
+        env = dict(env)
+        env[name] = val
+        for k in [k for k in env if k.startswith(name + ".")]:
+            del env[k]
+        return (conds, env, stores + ((name, val, stmt),))
+
+    def step(s, st) -> list:
+        conds, env, stores = st
+        if isinstance(s, ast.Expr) or isinstance(s, (ast.Pass, ast.Import, ast.ImportFrom, ast.Global, ast.Nonlocal)):
+            return [st]
+        if isinstance(s, ast.Assign):
+            v = subst(s.value, env)
+            for t in s.targets:
+                st = bind(st, t, v, s)
+            return [st]
+        if isinstance(s, ast.AnnAssign):
+            return [bind(st, s.target, subst(s.value, env), s)] if s.value is not None else [st]
+        if isinstance(s, ast.AugAssign):
+            v = ast.BinOp(left=subst(_load(s.target), env), op=s.op, right=subst(s.value, env))
+            return [bind(st, s.target, ast.fix_missing_locations(ast.copy_location(v, s)), s)]
+        if isinstance(s, ast.If):
+            t = subst(s.test, env)
+            a = block(s.body, [(conds + ((t, True),), env, stores)])
+            b = block(s.orelse, [(conds + ((t, False),), env, stores)])
+            return a + b
+        if isinstance(s, ast.With):
+            return block(s.body, [st])
+        if isinstance(s, ast.For) and not s.orelse:
+            it = subst(s.iter, env)
+            if not isinstance(it, (ast.Tuple, ast.List)):
+                raise AnalysisError(f"sym_paths: loop over a non-literal in {fi.qual}:{s.lineno}")
+            if any(isinstance(n, (ast.Break, ast.Continue)) for b in s.body for n in ast.walk(b)):
+                raise AnalysisError(f"sym_paths: break/continue in {fi.qual}:{s.lineno}")
+            states = [st]
+            for elt in it.elts:
+                states = block(s.body, [bind(x, s.target, elt, s) for x in states])
+            return states
+        if isinstance(s, ast.Return):
+            out.append(SymPath("return", subst(s.value, env) if s.value is not None else None, s, conds, env, stores))
+            return []
+        if isinstance(s, ast.Raise):
+            out.append(SymPath("raise", subst(s.exc, env) if s.exc is not None else None, s, conds, env, stores))
+            return []
+        raise AnalysisError(f"sym_paths: unsupported statement {type(s).__name__} in {fi.qual}:{getattr(s, 'lineno', 0)}")
+
+    def block(stmts, states) -> list:
+        for s in stmts:
+            nxt = []
+            for st in states:
+                nxt += step(s, st)
+            states = nxt
+            if len(states) + len(out) > limit:
+                raise AnalysisError(f"sym_paths: more than {limit} paths in {fi.qual}")
+            if not states:
+                break
+        return states
+
+    for st in block(fi.node.body, [((), {}, ())]):
+        out.append(SymPath("fall", None, None, st[0], st[1], st[2]))
+    return out
+
+
+def split_ifexp(e: ast.AST) -> list:
+    """[(conds, expression without conditional expressions)]: every `a if c else b` inside `e` is split into its cases."""
+    first = None
+    for n in ast.walk(e):
+        if isinstance(n, ast.IfExp):
+            first = n
+            break
+    if first is None:
+        return [([], e)]
+    out = []
+    for pol, pick in ((True, first.body), (False, first.orelse)):
+        for conds, x in split_ifexp(_replace_node(e, first, pick)):
+            out.append(([(first.test, pol)] + conds, x))
+    return out
+
+
+def _replace_node(root: ast.AST, old: ast.AST, new: ast.AST) -> ast.AST:
+    if root is old:
+        return copy.deepcopy(new)
+    if not isinstance(root, ast.AST):
+        return root
+    kw = {}
+    for f, v in ast.iter_fields(root):
+        if isinstance(v, list):
+            kw[f] = [_replace_node(x, old, new) for x in v]
+        else:
+            kw[f] = _replace_node(v, old, new)
+    return type(root)(**kw)
+
+
+# ------------------------------------------------------------------------------------------------ canonical literals
+class Lits:
+    """Canonical literals of conditions: order / equality comparisons between arithmetic expressions are normalised
+    through exact polynomials (`a < b`, `b > a`, `not a >= b`, `b - a > 0` all give the same literal); everything else
+    uses sem.atoms.  A literal is a string, negative ones carry a leading '!'.  Two variable families per polynomial B:
+    ge0(B) and gt0(B); B is the representative of {B, -B} with the smaller text."""
+
+    def __init__(self, P, mod, ren=None):
+        self.P, self.mod, self.ren = P, mod, ren or pretty
+
+    def poly(self, e) -> Poly:
+        return to_poly(self.P, self.mod, e, self.ren)
+
+    def _ord(self, d: Poly, strict: bool) -> str:
+        """literal of  d > 0 (strict)  /  d >= 0"""
+        a, b = repr(d), repr(-d)
+        if a <= b:
+            return f"gt0({a})" if strict else f"ge0({a})"
+        # d = -B:  -B > 0  ==  not (B >= 0) ;  -B >= 0  ==  not (B > 0)
+        return f"!ge0({b})" if strict else f"!gt0({b})"
+
+    def _eq(self, d: Poly) -> str:
+        return f"eq0({min(repr(d), repr(-d))})"
+
+    @staticmethod
+    def neg(a: str) -> str:
+        return a[1:] if a.startswith("!") else "!" + a
+
+    def atoms(self, test: ast.AST, pol: bool = True) -> list:
+        """Literals that certainly hold when `test` evaluates to `pol`."""
+        if isinstance(test, ast.UnaryOp) and isinstance(test.op, ast.Not):
+            return self.atoms(test.operand, not pol)
+        if isinstance(test, ast.BoolOp):
+            split = (isinstance(test.op, ast.And) and pol) or (isinstance(test.op, ast.Or) and not pol)
+            if split:
+                out = []
+                for v in test.values:
+                    out += self.atoms(v, pol)
+                return out
+            parts = sorted("&".join(sorted(self.atoms(v, pol))) for v in test.values)
+            return ["or(" + "|".join(parts) + ")"]
+        if isinstance(test, ast.Compare):
+            if len(test.ops) > 1:
+                if pol:
+                    out, left = [], test.left
+                    for op, right in zip(test.ops, test.comparators):
+                        out += self.atoms(ast.Compare(left=left, ops=[op], comparators=[right]), True)
+                        left = right
+                    return out
+                # a failed chain: one of the links fails
+                parts, left = [], test.left
+                for op, right in zip(test.ops, test.comparators):
+                    parts.append("&".join(sorted(self.atoms(ast.Compare(left=left, ops=[op], comparators=[right]), False))))
+                    left = right
+                return ["or(" + "|".join(sorted(parts)) + ")"]
+            op, a, b = test.ops[0], test.left, test.comparators[0]
+            if isinstance(op, (ast.Lt, ast.LtE, ast.Gt, ast.GtE)):
+                big, small = (a, b) if isinstance(op, (ast.Gt, ast.GtE)) else (b, a)
+                d = self.poly(big) - self.poly(small)
+                strict = isinstance(op, (ast.Gt, ast.Lt))
+                return [self._ord(d, strict)] if pol else [self._ord(-d, not strict)]
+            if isinstance(op, (ast.Eq, ast.NotEq)) and not any(isinstance(x, ast.Constant) and not isinstance(x.value, (int, float))
+                                                               for x in (a, b)):
+                lit = self._eq(self.poly(a) - self.poly(b))
+                return [lit if pol != isinstance(op, ast.NotEq) else "!" + lit]
+        if isinstance(test, ast.Constant):
+            return []
+        return [self.ren(x) for x in sem.atoms(test, pol)]
+
+    def of(self, conds) -> set:
+        """Literals of a path condition list, closed under  x > 0 => x >= 0  and  not x >= 0 => not x > 0."""
+        out = set()
+        for t, pol in conds:
+            out.update(self.atoms(t, pol))
+        for a in list(out):
+            if a.startswith("gt0("):
+                out.add("ge0(" + a[4:])
+            elif a.startswith("!ge0("):
+                out.add("!gt0(" + a[5:])
+        return out
+
+    def want(self, src: str, pol: bool = True) -> set:
+        return self.of([(_parse(src), pol)])
+
+    def holds(self, have: set, src: str, pol: bool = True) -> bool:
+        w = self.want(src, pol)
+        return bool(w) and w <= have
+
+    def equal(self, have: set, a: str, b: str) -> bool:
+        """`a == b` is established: an equality literal, or both `a >= b` and `a <= b`."""
+        return self.holds(have, f"({a}) == ({b})") or (self.holds(have, f"({a}) >= ({b})") and self.holds(have, f"({a}) <= ({b})"))
+
+    # ---- truth conditions as DNF over literals
+    def dnf(self, e: ast.AST, pol: bool = True) -> list:
+        """[frozenset(literals)]: `e` evaluates to `pol` iff all literals of one member hold."""
+        if isinstance(e, ast.Constant):
+            return [frozenset()] if bool(e.value) == pol else []
+        if isinstance(e, ast.UnaryOp) and isinstance(e.op, ast.Not):
+            return self.dnf(e.operand, not pol)
+        if isinstance(e, ast.Call) and dotted(e.func) == "bool" and len(e.args) == 1 and not e.keywords:
+            return self.dnf(e.args[0], pol)
+        if isinstance(e, ast.IfExp):
+            return self._and(self.dnf(e.test, True), self.dnf(e.body, pol)) + self._and(self.dnf(e.test, False), self.dnf(e.orelse, pol))
+        if isinstance(e, ast.BoolOp):
+            disj = (isinstance(e.op, ast.Or) and pol) or (isinstance(e.op, ast.And) and not pol)
+            parts = [self.dnf(v, pol) for v in e.values]
+            if disj:
+                return [m for p in parts for m in p]
+            acc = [frozenset()]
+            for p in parts:
+                acc = self._and(acc, p)
+            return acc
+        if isinstance(e, ast.Compare) and len(e.ops) > 1:
+            links, left = [], e.left
+            for op, right in zip(e.ops, e.comparators):
+                links.append(ast.Compare(left=left, ops=[op], comparators=[right]))
+                left = right
+            return self.dnf(ast.BoolOp(op=ast.And(), values=links), pol)
+        return [frozenset(self.atoms(e, pol))]
+
+    @staticmethod
+    def _and(a: list, b: list) -> list:
+        return [x | y for x in a for y in b]
+
+    @staticmethod
+    def equivalent(d1: list, d2: list, max_vars: int = 14):
+        """Truth-table equivalence of two DNFs over their literals (None when there are too many variables)."""
+        var = sorted({l.lstrip("!") for d in (d1, d2) for m in d for l in m})
+        if len(var) > max_vars:
+            return None
+
+        def ev(d, asg):
+            return any(all(asg[l.lstrip("!")] != l.startswith("!") for l in m) for m in d)
+        for bits in itertools.product((False, True), repeat=len(var)):
+            asg = dict(zip(var, bits))
+            # gt0(B) implies ge0(B): skip assignments that cannot occur
+            if any(v.startswith("gt0(") and asg[v] and ("ge0(" + v[4:]) in asg and not asg["ge0(" + v[4:]] for v in var):
+                continue
+            if ev(d1, asg) != ev(d2, asg):
+                return False
+        return True
+
+
+def bind_call(P, fi: FuncInfo, call: ast.Call) -> dict:
+    """parameter / dataclass-field name -> argument expression of a call to a repository function or class."""
+    tg = P.call_targets(fi, call, count=False, cha=False)
+    names, off = None, 0
+    for t in tg:
+        if isinstance(t, ClassInfo):
+            init = t.methods.get("__init__")
+            if init is not None:
+                names, off = init.params, 1
+            else:
+                names = []
+                for c in reversed(t.mro()):
+                    for f, (ann, _) in c.fields.items():
+                        if ann is not None and f not in names:
+                            names.append(f)
+            break
+        if isinstance(t, FuncInfo):
+            names = t.params
+            off = 1 if t.kind in ("method", "classmethod", "property") and names else 0
+            break
+    out = {}
+    for i, a in enumerate(call.args):
+        if names is not None and i + off < len(names):
+            out[names[i + off]] = a
+        else:
+            out[f"#{i}"] = a
+    for kw in call.keywords:
+        if kw.arg:
+            out[kw.arg] = kw.value
+    return out
 
 
 def run(ctx):
     P = ctx.prog
     ctx.explanation = (
-        "Table rules (K11) on the literal Annex A tables (folded from source), guard/bounds rules (K1/K10) on the reactive "
-        "state move, and formula-identity rules: the expressions stored into the adaptive filter state and the gate times "
-        "are expanded through their local definitions and normalised to polynomials with exact rational coefficients "
-        "(min/max as canonical atoms), then compared with clause 5.4 equations 1-5 and Annex B equations B.1/B.2. A formula "
-        "identity holds for every input sequence at once.")
+        "Table rules (K11) on the literal Annex A tables (folded from source) and on the table the constructor selects for "
+        "every assumed T_on; path rules on the reactive state move (every symbolic path of update(): new index = old index "
+        "+ k with k in {-1, 0, +1}, the branch condition orders target and current index accordingly, the output row is the "
+        "row of the state just stored); formula-identity rules: the values stored into the adaptive filter state and the "
+        "gate times on every path are written in terms of the state at entry and normalised to polynomials with exact "
+        "rational coefficients (min/max as canonical atoms), then compared with clause 5.4 equations 1-5 and Annex B "
+        "equations B.1/B.2; truth-table equivalence of the gate predicate with `no opening scheduled or t >= t_go - eps`. "
+        "A formula identity holds for every input sequence at once.")
     ctx.declined = ["convergence 'within four evaluations' as a run property", "floating point rounding",
                     "comparison with remembered Annex A numbers (internal agreement is checked instead)"]
-    tables(ctx)
+    rows = tables(ctx)
+    selection(ctx, rows)
+    ctx.floor("C19.tables", 41)
     reactive(ctx)
     adaptive(ctx)
     gate(ctx)
 
 
 # ------------------------------------------------------------------------------------------------ tables
-def tables(ctx):
+def tables(ctx) -> dict:
     P = ctx.prog
     m = P.module(RX)
     order = m.consts.get("_STATE_ORDER")
@@ -60,6 +412,7 @@ def tables(ctx):
            f"_STATE_ORDER lists {onames}; DccState has {sorted(st.enum_members)}", f"{m.rel}:{order.lineno}")
     ctx.ob("C19.tables", f"{RX}._STATE_ORDER", "ascending", vals == sorted(vals) and len(set(vals)) == len(vals),
            f"state order values {vals} must be strictly ascending (RELAXED .. RESTRICTIVE)", f"{m.rel}:{order.lineno}")
+    all_rows = {}
     for tname in ("_TABLE_A1", "_TABLE_A2"):
         t = m.consts.get(tname)
         if not isinstance(t, ast.Dict):
@@ -73,6 +426,7 @@ def tables(ctx):
             args = {fields[i]: P.try_fold(m, a) for i, a in enumerate(v.args)}
             args.update({kw.arg: P.try_fold(m, kw.value) for kw in v.keywords})
             rows.append((dotted(k).split(".")[-1], args, v.lineno))
+        all_rows[tname] = rows
         con = f"{RX}.{tname}"
         ctx.ob("C19.tables", con, "row-order", [r[0] for r in rows] == onames,
                f"rows {[r[0] for r in rows]} must follow _STATE_ORDER (the band search relies on it)", f"{m.rel}:{t.lineno}")
@@ -93,80 +447,187 @@ def tables(ctx):
         rates = [a["packet_rate_hz"] for _, a, _ in rows]
         ctx.ob("C19.tables", con, "rate-monotone", rates == sorted(rates, reverse=True),
                f"packet rates {rates} must not increase with channel load", f"{m.rel}:{t.lineno}")
-    ctx.floor("C19.tables", 30)
+    return all_rows
+
+
+T_ON_SPLIT_US = 500          # Annex A: Table A.2 assumes T_on <= 500 us, Table A.1 T_on <= 1 ms
+
+
+def selection(ctx, rows: dict):
+    """Which Annex A table DccReactive.__init__ installs, decided for every assumed T_on of 0 .. 4000 us (and 10^6)."""
+    P = ctx.prog
+    m = P.module(RX)
+    fi = P.func(f"{RX}.DccReactive.__init__")
+    var = fi.params[1]
+    cases = []
+    for p in sym_paths(fi):
+        if p.kind == "raise":
+            continue
+        v = p.env.get("self._table")
+        if v is None:
+            cases.append((p.conds, None))
+            continue
+        for conds, x in split_ifexp(v):
+            cases.append((list(p.conds) + conds, x))
+
+    def table_of(x):
+        if x is None:
+            return None
+        r = P.resolve_expr_entity(m, x)
+        if isinstance(r, tuple) and r[0] == "const":
+            for tname in rows:
+                if r[2] is m.consts.get(tname):
+                    return tname
+        return None
+
+    picked = {}
+    samples = list(range(0, 4001)) + [10 ** 6]
+    for t_on in samples:
+        hit = []
+        for conds, x in cases:
+            ev = MiniEval(P, fi, {var: t_on})
+            if all(bool(ev.ev(c)) == pol for c, pol in conds):
+                hit.append(table_of(x))
+        picked[t_on] = hit[0] if len(hit) == 1 else None
+    con, loc = fi.short(), fi.loc
+    bad_lo = [t for t in samples if t <= T_ON_SPLIT_US and picked[t] != "_TABLE_A2"]
+    bad_hi = [t for t in samples if t > T_ON_SPLIT_US and picked[t] != "_TABLE_A1"]
+    ctx.ob("C19.tables", con, f"selection:t_on<={T_ON_SPLIT_US}us", not bad_lo,
+           f"every assumed T_on of at most {T_ON_SPLIT_US} us installs Table A.2" if not bad_lo else
+           f"T_on = {bad_lo[0]} us installs {picked[bad_lo[0]]} (Annex A: Table A.2 is the table for T_on <= {T_ON_SPLIT_US} us)", loc)
+    ctx.ob("C19.tables", con, f"selection:t_on>{T_ON_SPLIT_US}us", not bad_hi,
+           f"every assumed T_on above {T_ON_SPLIT_US} us installs Table A.1" if not bad_hi else
+           f"T_on = {bad_hi[0]} us installs {picked[bad_hi[0]]} (Annex A: Table A.1 is the table for T_on up to 1 ms)", loc)
+    # name-independent cross check: the table used for the shorter packets is the one that allows the higher packet rates
+    short, long_ = picked[T_ON_SPLIT_US], picked[T_ON_SPLIT_US + 1]
+    ok = short in rows and long_ in rows and short != long_
+    if ok:
+        rs = [a["packet_rate_hz"] for _, a, _ in rows[short]]
+        rl = [a["packet_rate_hz"] for _, a, _ in rows[long_]]
+        ok = len(rs) == len(rl) and all(x >= y for x, y in zip(rs, rl)) and any(x > y for x, y in zip(rs, rl))
+    ctx.ob("C19.tables", con, "selection:shorter-packets-higher-rate", ok,
+           f"table for T_on <= {T_ON_SPLIT_US} us = {short}, table above = {long_}: the table for the shorter packets must allow "
+           f"row by row at least the rates of the other (equal duty cycle)", loc)
+
+
+# ------------------------------------------------------------------------------------------------ shared path rules
+def _cbr_guard(ctx, fi: FuncInfo, L: Lits, normal: list, params: list, rule: str):
+    for p in params:
+        bad = [x for x in normal if not L.holds(L.of(x.conds), f"0.0 <= {p} <= 1.0")]
+        ctx.ob(rule, fi.short(), f"range:{p}", not bad and bool(normal),
+               f"state is only updated after `0.0 <= {p} <= 1.0` was established (else ValueError)" if not bad else
+               f"the update proceeds without an established `0.0 <= {p} <= 1.0` on a path "
+               f"(conditions: {[('' if pol else 'not ') + unparse(t)[:40] for t, pol in bad[0].conds][:4]})", fi.loc)
 
 
 # ------------------------------------------------------------------------------------------------ reactive
-def _cbr_guard(ctx, fi: FuncInfo, fl, node, params: list, rule: str):
-    st = fl.state_at(node)
-    conds = {norm(pretty(f.xkey)): f.pol for f in st.facts if f.kind == "cond"}
-    for p in params:
-        lo = conds.get(f"{p}>=0.0") is True or conds.get(f"{p}>=0") is True
-        hi = conds.get(f"1.0>={p}") is True or conds.get(f"1>={p}") is True
-        if not (lo and hi):
-            # loop-literal form:  for name, val in (("p", p), ...): if not 0.0 <= val <= 1.0: raise ValueError
-            for n in ast.walk(fi.node):
-                if isinstance(n, ast.For) and isinstance(n.iter, ast.Tuple) and n.lineno < getattr(node, "lineno", 10 ** 9):
-                    vals = [unparse(e.elts[-1]) for e in n.iter.elts if isinstance(e, ast.Tuple)]
-                    tgt = n.target.elts[-1].id if isinstance(n.target, ast.Tuple) else getattr(n.target, "id", None)
-                    body_ok = any(isinstance(b, ast.If) and norm(unparse(b.test)) in (f"not0.0<={tgt}<=1.0", f"not0<={tgt}<=1")
-                                  and any(isinstance(x, ast.Raise) for x in b.body) for b in n.body)
-                    if p in vals and body_ok:
-                        lo = hi = True
-        ctx.ob(rule, fi.short(), f"range:{p}", lo and hi,
-               f"state is only updated after `0.0 <= {p} <= 1.0` was established (else ValueError)" if lo and hi else
-               f"the update proceeds without an established `0.0 <= {p} <= 1.0` on every path", f"{fi.module.rel}:{node.lineno}")
-
-
 def reactive(ctx):
     P = ctx.prog
     fi = P.func(f"{RX}.DccReactive.update")
-    fl = ctx.flows.get(fi)
-    stores = [n for n in ast.walk(fi.node) if isinstance(n, ast.Assign) and dotted(n.targets[0]) == "self.state"]
-    ctx.ob("C19.one-step", fi.short(), "single-store", len(stores) == 1, f"{len(stores)} store(s) to self.state per evaluation", fi.loc)
-    if len(stores) != 1:
-        return
-    s = stores[0]
-    st = fl.state_at(s)
-    _cbr_guard(ctx, fi, fl, s, ["cbr"], "C19.cbr-range")
-    alts = [norm(pretty(unparse(a))) for a in fl.alternatives(s.value, st)]
-    base = "_STATE_ORDER.index(self.state)"
-    allowed = {f"_STATE_ORDER[{base}]", f"_STATE_ORDER[{base}+1]", f"_STATE_ORDER[{base}-1]"}
-    ctx.ob("C19.one-step", fi.short(), "step-set", set(alts) <= allowed and len(alts) >= 2,
-           f"new state index is one of {sorted(a.replace(base, 'i') for a in alts)}; must be within {{i-1, i, i+1}}",
-           f"{fi.module.rel}:{s.lineno}")
-    # direction: +1 only when target above, -1 only when target below
-    for n in ast.walk(fi.node):
-        if isinstance(n, ast.AugAssign) and dotted(n.target) == "current_idx":
-            fs = fl.state_at(n)
-            conds = {norm(pretty(f.xkey)): f.pol for f in fs.facts if f.kind == "cond"}
-            up = isinstance(n.op, ast.Add)
-            tgt_re = r"_STATE_ORDER\.index\((?!self\.state\))[^()]*(\([^()]*\))?[^()]*\)"
-            pat = (tgt_re + ">" + re.escape(base)) if up else (re.escape(base) + ">" + tgt_re)
-            hit = [k for k, v in conds.items() if v is True and re.fullmatch(pat, k)]
-            ctx.ob("C19.one-step", fi.short(), "towards-target:" + ("up" if up else "down"), bool(hit),
-                   f"index {'+' if up else '-'}= {unparse(n.value)} only when the target state's index is "
-                   f"{'above' if up else 'below'} the current one" + (f" (`{hit[0][:80]}`)" if hit else ""),
-                   f"{fi.module.rel}:{n.lineno}")
-            ctx.ob("C19.one-step", fi.short(), "unit-step:" + ("up" if up else "down"), P.try_fold(fi.module, n.value) == 1,
-                   f"step size {unparse(n.value)}", f"{fi.module.rel}:{n.lineno}")
-    # output row of the NEW state
-    for c in P.calls_in(fi):
-        if dotted(c.func) == "DccReactiveOutput":
-            cs = fl.state_at(c)
-            kws = {kw.arg: norm(pretty(unparse(fl.expand(kw.value, cs)))) for kw in c.keywords if kw.arg}
-            new_state = kws.get("state", "")
-            for f_ in ("packet_rate_hz", "t_off_ms"):
-                ok = kws.get(f_) == f"self._table[{new_state}].{f_}" and new_state.startswith("_STATE_ORDER[")
-                ctx.ob("C19.one-step", fi.short(), f"output:{f_}", ok,
-                       f"{f_} = `{kws.get(f_, '')[:90]}`; must be the table row of the state just stored (`{new_state[:60]}`)",
-                       f"{fi.module.rel}:{c.lineno}")
-    # band search: first match in table order with half-open band
+    mod = fi.module
+    L = Lits(P, mod)
+    cbr = fi.params[1]
+    paths = sym_paths(fi)
+    normal = [p for p in paths if p.kind != "raise"]
+    if not normal:
+        raise AnalysisError("C19: DccReactive.update has no normal exit")
+    _cbr_guard(ctx, fi, L, normal, [cbr], "C19.cbr-range")
+    con = fi.short()
+    n_st = {len(p.stored("self.state")) for p in normal}
+    ctx.ob("C19.one-step", con, "single-store", n_st == {1}, f"store(s) to self.state per evaluation: {sorted(n_st)}", fi.loc)
+    order = mod.consts.get("_STATE_ORDER")
+    I = f"_STATE_ORDER.index(self.state)"
+    T = f"_STATE_ORDER.index(self._target_state({cbr}))"
+    ks, bad_step, bad_dir, bad_out = set(), [], {}, {}
+    for p in normal:
+        new = p.env.get("self.state")
+        k = None
+        if isinstance(new, ast.Subscript):
+            r = P.resolve_expr_entity(mod, new.value)
+            d = L.poly(new.slice) - L.poly(_parse(I))
+            if isinstance(r, tuple) and r[0] == "const" and r[2] is order and d.is_const() and d.cval().denominator == 1:
+                k = int(d.cval())
+        if k not in (-1, 0, 1):
+            bad_step.append(pretty(unparse(new)) if new is not None else "<no store>")
+            continue
+        ks.add(k)
+        have = L.of(p.conds)
+        if k == 1:
+            okd = L.holds(have, f"{T} > {I}")
+        elif k == -1:
+            okd = L.holds(have, f"{T} < {I}")
+        else:
+            okd = L.equal(have, T, I)
+        if not okd:
+            bad_dir.setdefault(k, [("" if pol else "not ") + unparse(t) for t, pol in p.conds][-2:])
+        # output row of the NEW state
+        out = p.value
+        kws = bind_call(P, fi, out) if isinstance(out, ast.Call) and any(
+            isinstance(t, ClassInfo) and t.name == "DccReactiveOutput" for t in P.call_targets(fi, out, count=False)) else None
+        if kws is None:
+            bad_out.setdefault("state", f"returns `{unparse(out)[:60] if out is not None else None}`")
+            continue
+        if not ("state" in kws and sem.same(kws["state"], new)):
+            bad_out.setdefault("state", f"state = `{unparse(kws.get('state', ast.Constant(None)))[:80]}`")
+        for f_ in ("packet_rate_hz", "t_off_ms"):
+            want = ast.Attribute(value=ast.Subscript(value=_parse("self._table"), slice=copy.deepcopy(new), ctx=ast.Load()), attr=f_, ctx=ast.Load())
+            if not (f_ in kws and sem.same(kws[f_], want)) or "self._table" in p.env:
+                bad_out.setdefault(f_, f"{f_} = `{unparse(kws.get(f_, ast.Constant(None)))[:90]}`")
+    ctx.ob("C19.one-step", con, "step-set", not bad_step and ks == {-1, 0, 1},
+           f"new state index = old index + k with k in {sorted(ks)}" + (f"; not a one-step move: `{bad_step[0][:80]}`" if bad_step else "") +
+           "; must be exactly the moves {-1, 0, +1} along _STATE_ORDER", fi.loc)
+    for k, name, txt in ((1, "towards-target:up", "above"), (-1, "towards-target:down", "below"), (0, "stays-at-target", "equal to")):
+        ctx.ob("C19.one-step", con, name, k in ks and k not in bad_dir,
+               f"index {'+' if k >= 0 else '-'}= {abs(k)} only when the target state's index is {txt} the current one" if k in ks and k not in bad_dir
+               else f"a path moves the index by {k:+d} without the target index being {txt} the current one (conditions {bad_dir.get(k)})", fi.loc)
+    for f_ in ("state", "packet_rate_hz", "t_off_ms"):
+        ctx.ob("C19.one-step", con, f"output:{f_}", f_ not in bad_out,
+               f"{f_} of the output is that of the state just stored" if f_ not in bad_out else
+               f"{bad_out[f_]}; must be the {'state just stored' if f_ == 'state' else 'table row of the state just stored'}", fi.loc)
+    band_search(ctx, L)
+    ctx.floor("C19.one-step", 11)
+
+
+def band_search(ctx, L: Lits):
+    """_target_state: first row in table order whose half-open band [cbr_min, cbr_max) contains the CBR; else the last state."""
+    P = ctx.prog
     ts = P.func(f"{RX}.DccReactive._target_state")
-    src = norm(unparse(ts.node))
-    ctx.ob("C19.one-step", ts.short(), "band-test", "cfg.cbr_min<=cbr<cfg.cbr_max" in src,
-           "target band test is `cbr_min <= cbr < cbr_max`", ts.loc)
-    ctx.floor("C19.one-step", 8)
+    fl = ctx.flows.get(ts)
+    cbr = ts.params[1]
+    loops = [n for n in ts.node.body if isinstance(n, ast.For)]
+    ok_iter = False
+    key = row = None
+    if len(loops) == 1:
+        lp = loops[0]
+        it = lp.iter
+        if isinstance(it, ast.Call) and isinstance(it.func, ast.Attribute) and it.func.attr == "items" and dotted(it.func.value) == "self._table" \
+                and isinstance(lp.target, ast.Tuple) and len(lp.target.elts) == 2 and all(isinstance(e, ast.Name) for e in lp.target.elts):
+            key, row = lp.target.elts[0].id, lp.target.elts[1].id
+            ok_iter = not any(isinstance(n, (ast.Break, ast.Continue)) for n in ast.walk(lp))
+    ctx.ob("C19.one-step", ts.short(), "band-search-order", ok_iter,
+           "the band search walks self._table.items() in table order without skipping rows", ts.loc)
+    ok_band, ok_last, n_in = ok_iter, False, 0
+    why = ""
+    for k, s, st in fl.exits:
+        if k != "return":
+            continue
+        inside = ok_iter and any(s is n for n in ast.walk(loops[0]))
+        if inside:
+            n_in += 1
+            have = L.of([(f.node, f.pol) for f in st.facts if f.kind == "cond"])
+            want = L.want(f"{row}.cbr_min <= {cbr} < {row}.cbr_max")
+            if not (isinstance(s.value, ast.Name) and s.value.id == key and have == want):
+                ok_band = False
+                why = f"returns `{unparse(s.value)}` under {sorted(have)}"
+        else:
+            r = P.resolve_expr_entity(ts.module, s.value) if s.value is not None else None
+            order = ts.module.consts.get("_STATE_ORDER")
+            last = P.resolve_expr_entity(ts.module, order.elts[-1]) if isinstance(order, ast.List) and order.elts else None
+            ok_last = isinstance(r, tuple) and r[0] == "enum" and isinstance(last, tuple) and r[1:] == last[1:]
+    ctx.ob("C19.one-step", ts.short(), "band-test", ok_band and n_in == 1,
+           "target band test is `cbr_min <= cbr < cbr_max` (first matching row)" if ok_band and n_in == 1 else
+           f"the band test is not exactly `cbr_min <= cbr < cbr_max`: {why}", ts.loc)
+    ctx.ob("C19.one-step", ts.short(), "band-fallback", ok_last, "a CBR in no band maps to the last (most restrictive) state", ts.loc)
 
 
 # ------------------------------------------------------------------------------------------------ adaptive
@@ -178,70 +639,94 @@ def _ren(s: str) -> str:
 def adaptive(ctx):
     P = ctx.prog
     fi = P.func(f"{AD}.DccAdaptive.update")
-    fl = ctx.flows.get(fi)
     mod = fi.module
-    rets = [(s, st) for k, s, st in fl.exits if k == "return"]
-    if not rets:
+    L = Lits(P, mod, _ren)
+    paths = sym_paths(fi)
+    normal = [p for p in paths if p.kind != "raise"]
+    if not [p for p in normal if p.kind == "return"]:
         raise AnalysisError("C19: DccAdaptive.update has no return")
-    for i, (s, st) in enumerate(rets):
-        _cbr_guard(ctx, fi, fl, s, ["cbr_local", "cbr_local_previous"], "C19.cbr-range")
-        stored = "self.delta" in st.defs and "self.cbr_its_s" in st.defs
-        ctx.ob("C19.limeric", fi.short(), f"return#{i}:fresh", stored and norm(unparse(s.value)) == "self.delta",
-               "returns self.delta after both filter states were stored in this evaluation" if stored else
-               "a return is reachable before the smoothed CBR / delta were updated (equations 1-4 skipped): the old delta is "
-               "returned", f"{mod.rel}:{s.lineno}")
-    # eq 1-2: smoothed CBR
-    cbr_stores = [n for n in ast.walk(fi.node) if isinstance(n, ast.Assign) and dotted(n.targets[0]) == "self.cbr_its_s"]
-    for n in cbr_stores:
-        st = fl.state_at(n)
-        got = set()
-        for a in fl.alternatives(n.value, st):
-            got.add(repr(to_poly(P, mod, a, _ren)))
-        want_local = repr(to_poly(P, mod, ast.parse("0.5*self.cbr_its_s + 0.5*((cbr_local + cbr_local_previous)/2.0)", mode="eval").body, _ren))
-        want_glob = repr(to_poly(P, mod, ast.parse("0.5*self.cbr_its_s + 0.5*((cbr_global + cbr_global_previous)/2.0)", mode="eval").body, _ren))
-        ctx.ob("C19.limeric", fi.short(), "eq1-2:cbr-smoothing", got == {want_local, want_glob},
-               f"CBR_ITS-S' alternatives {sorted(got)}; clause 5.4 gives 0.5*CBR_ITS-S + 0.5*(CBR + CBR_prev)/2 with the global "
-               f"pair when available", f"{mod.rel}:{n.lineno}")
-    # eq 3: offset with clamps
-    off_defs = [n for n in ast.walk(fi.node) if isinstance(n, ast.Assign) and dotted(n.targets[0]) == "delta_offset"]
-    diffp = None
-    for n in off_defs:
-        st = fl.state_at(n)
-        x = fl.expand(n.value, st)
-        conds = {norm(pretty(f.xkey)): f.pol for f in st.facts if f.kind == "cond"}
-        px = repr(to_poly(P, mod, x, _ren))
-        up = repr(to_poly(P, mod, ast.parse("min(p.beta*(p.cbr_target - CBR), p.delta_up_max)", mode="eval").body, _ren))
-        dn = repr(to_poly(P, mod, ast.parse("max(p.beta*(p.cbr_target - CBR), p.delta_down_max)", mode="eval").body, _ren))
-        # CBR stands for the freshly stored smoothed value: substitute its text
-        cur = None
-        for a in [repr(to_poly(P, mod, fl.expand(ast.parse("self.cbr_its_s", mode="eval").body, st), _ren))]:
-            cur = a
-        kind = "up" if "min(" in px else "down"
-        ctx.ob("C19.limeric", fi.short(), f"eq3:offset-{kind}", ("p.beta" in px and "p.cbr_target" in px and
-                                                                  (("p.delta_up_max" in px and kind == "up") or
-                                                                   ("p.delta_down_max" in px and kind == "down"))),
-               f"delta_offset ({kind}) = {px[:160]}", f"{mod.rel}:{n.lineno}")
-        sign = [k for k, v in conds.items() if "p.cbr_target-" in k.replace("self.parameters.", "p.") and ">0" in k]
-        want_pol = kind == "up"
-        ok = any(conds[k] is want_pol for k in sign) or (kind == "down" and any("0.0>=" in k or "0>=" in k for k in conds))
-        ctx.ob("C19.limeric", fi.short(), f"eq3:branch-{kind}", ok,
+    pr = fi.params
+    loc_now, loc_prev, glb_now, glb_prev = pr[1], pr[2], pr[3], pr[4]
+    _cbr_guard(ctx, fi, L, normal, [loc_now, loc_prev], "C19.cbr-range")
+    con = fi.short()
+    rep = lambda e: repr(L.poly(e))
+
+    # every normal exit returns the delta stored in this evaluation, after both filter states were stored
+    bad = [p for p in normal if not (p.stored("self.delta") and p.stored("self.cbr_its_s") and p.value is not None
+                                     and sem.same(p.value, p.env["self.delta"]))]
+    ctx.ob("C19.limeric", con, "return#0:fresh", not bad,
+           "returns self.delta after both filter states were stored in this evaluation" if not bad else
+           "a return is reachable before the smoothed CBR / delta were updated (equations 1-4 skipped) or returns something "
+           f"else than the stored delta: `{unparse(bad[0].value)[:60] if bad[0].value is not None else None}`",
+           f"{mod.rel}:{bad[0].stmt.lineno if bad and bad[0].stmt is not None else fi.node.lineno}")
+    full = [p for p in normal if p.stored("self.delta") and p.stored("self.cbr_its_s")]
+    # eq 1-2: smoothed CBR, global pair when both are available, else the local pair
+    bad12 = []
+    for p in full:
+        have = L.of(p.conds)
+        use_g = L.holds(have, f"{glb_now} is not None") and L.holds(have, f"{glb_prev} is not None")
+        a, b = (glb_now, glb_prev) if use_g else (loc_now, loc_prev)
+        if not use_g and not (L.holds(have, f"{glb_now} is None") or L.holds(have, f"{glb_prev} is None") or
+                              L.holds(have, f"{glb_now} is not None and {glb_prev} is not None", False)):
+            bad12.append("the local pair is used although the global pair may be available")
+            continue
+        stores = p.stored("self.cbr_its_s")
+        got = rep(stores[0][0])
+        want = rep(_parse(f"0.5*self.cbr_its_s + 0.5*(({a} + {b})/2.0)"))
+        if len(stores) != 1 or got != want:
+            bad12.append(f"CBR_ITS-S' = {got} with the {'global' if use_g else 'local'} pair")
+    ctx.ob("C19.limeric", con, "eq1-2:cbr-smoothing", bool(full) and not bad12,
+           "CBR_ITS-S' = 0.5*CBR_ITS-S + 0.5*(CBR + CBR_prev)/2 with the global pair when both are available, else the local pair"
+           if full and not bad12 else f"{bad12[:1]}; clause 5.4 gives 0.5*CBR_ITS-S + 0.5*(CBR + CBR_prev)/2", fi.loc)
+    # eq 3: offset with clamps, computed from the freshly stored smoothed CBR; eq 4: exponential filter
+    res = {"up": [], "down": [], "none": [], "eq4": []}
+    seen = {"up": 0, "down": 0}
+    for p in full:
+        have = L.of(p.conds)
+        cbr_new = p.stored("self.cbr_its_s")[0][0]
+        env = {"CBR": cbr_new}
+        D = subst(_parse("self.parameters.cbr_target - CBR"), env)
+        up = L.of([(ast.Compare(left=D, ops=[ast.Gt()], comparators=[ast.Constant(0)]), True)]) <= have
+        down = L.of([(ast.Compare(left=D, ops=[ast.Gt()], comparators=[ast.Constant(0)]), False)]) <= have
+        dstores = p.stored("self.delta")
+        first = dstores[0][0]
+        # delta' - (1 - alpha) * delta  is the offset that was applied
+        applied = L.poly(first) - L.poly(_parse("(1.0 - self.parameters.alpha) * self.delta"))
+        if up == down:
+            res["none"].append([("" if pol else "not ") + _ren(unparse(t))[:60] for t, pol in p.conds][-3:])
+            continue
+        kind = "up" if up else "down"
+        seen[kind] += 1
+        want = subst(_parse("min(self.parameters.beta*(self.parameters.cbr_target - CBR), self.parameters.delta_up_max)" if up else
+                            "max(self.parameters.beta*(self.parameters.cbr_target - CBR), self.parameters.delta_down_max)"), env)
+        if repr(applied) != rep(want):
+            res[kind].append(f"delta' - (1 - alpha)*delta = {applied!r}")
+    for kind in ("up", "down"):
+        ok = seen[kind] > 0 and not res[kind]
+        ctx.ob("C19.limeric", con, f"eq3:offset-{kind}", ok,
+               (f"on the {'positive' if kind == 'up' else 'non-positive'} side the applied offset is "
+                f"{'min(beta*(CBR_target - CBR_ITS-S), delta_up_max)' if kind == 'up' else 'max(beta*(CBR_target - CBR_ITS-S), delta_down_max)'}"
+                " of the freshly smoothed CBR") if ok else
+               f"offset ({kind}) is not equation {'2' if kind == 'up' else '3'}: {res[kind][:1] or 'no such path'}", fi.loc)
+        ctx.ob("C19.limeric", con, f"eq3:branch-{kind}", seen[kind] > 0 and not res["none"],
                f"{'min with delta_up_max' if kind == 'up' else 'max with delta_down_max'} is applied on the "
-               f"{'positive' if kind == 'up' else 'non-positive'} side of (CBR_target - CBR_ITS-S)", f"{mod.rel}:{n.lineno}")
-    # eq 4 + clamps eq 5
+               f"{'positive' if kind == 'up' else 'non-positive'} side of (CBR_target - CBR_ITS-S)" if seen[kind] > 0 and not res["none"]
+               else f"a path does not decide the sign of (CBR_target - CBR_ITS-S'): {res['none'][:1]}", fi.loc)
+    # eq 4 as a statement of the source: exactly one store computes the filter, from the offset
     dstores = [n for n in ast.walk(fi.node) if isinstance(n, ast.Assign) and dotted(n.targets[0]) == "self.delta"]
-    main = [n for n in dstores if "alpha" in unparse(n.value)]
-    ctx.ob("C19.limeric", fi.short(), "eq4:present", len(main) == 1, f"{len(main)} store(s) implementing equation 4", fi.loc)
+    main = [n for n in dstores if any(isinstance(x, ast.Attribute) and x.attr == "alpha" for x in ast.walk(n.value))]
+    ctx.ob("C19.limeric", con, "eq4:present", len(main) == 1, f"{len(main)} store(s) implementing equation 4", fi.loc)
     for n in main:
         got = repr(to_poly(P, mod, n.value, _ren))
-        want = repr(to_poly(P, mod, ast.parse("(1.0 - p.alpha)*self.delta + delta_offset", mode="eval").body, _ren))
-        ctx.ob("C19.limeric", fi.short(), "eq4:formula", got == want,
+        want = repr(to_poly(P, mod, _parse("(1.0 - p.alpha)*self.delta + delta_offset"), _ren))
+        ctx.ob("C19.limeric", con, "eq4:formula", got == want,
                f"delta' = {got}; clause 5.4 eq. 4: (1 - alpha)*delta + delta_offset", f"{mod.rel}:{n.lineno}")
     lo, hi = _clamp_sequence(fi, "self.delta")
-    ctx.ob("C19.delta-clamp", fi.short(), "upper", norm(_ren(hi or "")) == "p.delta_max",
+    ctx.ob("C19.delta-clamp", con, "upper", norm(_ren(hi or "")) == "p.delta_max",
            f"value returned is bounded above by `{hi}` (needs p.delta_max)", fi.loc)
-    ctx.ob("C19.delta-clamp", fi.short(), "lower", norm(_ren(lo or "")) == "p.delta_min",
+    ctx.ob("C19.delta-clamp", con, "lower", norm(_ren(lo or "")) == "p.delta_min",
            f"value returned is bounded below by `{lo}` (needs p.delta_min)", fi.loc)
-    ctx.floor("C19.limeric", 7)
+    ctx.floor("C19.limeric", 8)
 
 
 def _clamp_sequence(fi: FuncInfo, var: str):
@@ -284,104 +769,144 @@ def gate(ctx):
     P = ctx.prog
     gk = P.cls(f"{AD}.GateKeeper")
     mod = gk.module
+    L = Lits(P, mod)
     cmin = P.try_fold(mod, gk.fields["GATE_OPEN_MIN_INTERVAL_S"][1])
     cmax = P.try_fold(mod, gk.fields["GATE_OPEN_MAX_INTERVAL_S"][1])
     ctx.ob("C19.gate", gk.qual[10:], "constants", cmin == 0.025 and cmax == 1.0,
            f"gate interval limits [{cmin}, {cmax}] s; TS 102 687 Annex B: [0.025, 1.0]", f"{mod.rel}:{gk.node.lineno}")
-    spec = {
-        "admit_packet": ("t", "t_on / self._delta"),
-        "update_delta": ("self._t_pg", "(self._delta_old / delta_new) * (self._t_go - self._t_pg)"),
-    }
+
+    def class_const(e):
+        """value of self.X / GateKeeper.X / cls.X for a class-level constant X, else a folded module constant"""
+        if isinstance(e, ast.Attribute) and isinstance(e.value, ast.Name) and e.value.id in ("self", "cls", gk.name) and e.attr in gk.fields:
+            return P.try_fold(mod, gk.fields[e.attr][1])
+        return P.try_fold(mod, e)
+
     n_store = 0
-    for name, (ref, inner) in spec.items():
+    for name in ("admit_packet", "update_delta"):
         fi = gk.methods[name]
-        fl = ctx.flows.get(fi)
-        for n in ast.walk(fi.node):
-            if isinstance(n, ast.Assign) and dotted(n.targets[0]) == "self._t_go":
-                n_store += 1
-                st = fl.state_at(n)
-                x = fl.expand(n.value, st)
-                ok_shape = isinstance(x, ast.BinOp) and isinstance(x.op, ast.Add)
-                ctx.ob("C19.gate", fi.short(), "t_go:shape", ok_shape, f"t_go = `{pretty(unparse(x))[:110]}` must be t_ref + clamp(...)",
-                       f"{mod.rel}:{n.lineno}")
-                if not ok_shape:
-                    continue
-                a, b = x.left, x.right
-                if isinstance(a, ast.Call):
-                    a, b = b, a
-                tref = norm(pretty(unparse(a)))
-                ctx.ob("C19.gate", fi.short(), "t_go:reference", tref == norm(ref),
-                       f"gate opening is scheduled relative to `{tref}`; equation {'B.1' if name == 'admit_packet' else 'B.2'} "
-                       f"anchors it at `{ref}`", f"{mod.rel}:{n.lineno}")
-                # clamp structure
-                cl = _clamp(b)
-                if cl is None:
-                    ctx.ob("C19.gate", fi.short(), "t_go:clamp", False, f"interval `{pretty(unparse(b))[:90]}` is not min(max(x, MIN), MAX)",
-                           f"{mod.rel}:{n.lineno}")
-                    continue
-                xexpr, lo, hi = cl
-                ctx.ob("C19.gate", fi.short(), "t_go:clamp", norm(unparse(lo)).endswith("GATE_OPEN_MIN_INTERVAL_S") and
-                       norm(unparse(hi)).endswith("GATE_OPEN_MAX_INTERVAL_S"),
-                       f"interval clamped to [{unparse(lo)}, {unparse(hi)}]", f"{mod.rel}:{n.lineno}")
-                # a local that snapshots self._delta BEFORE it is overwritten is the "old delta" of equation B.2
-                olds = set()
-                for d in fl.defs.values():
-                    if d.kind == "assign" and d.value is not None and norm(unparse(d.value)) == "self._delta" and "." not in d.name:
-                        later_store = any(isinstance(x, ast.Assign) and dotted(x.targets[0]) == "self._delta" and
-                                          x.lineno > d.stmt.lineno for x in ast.walk(fi.node))
-                        if later_store:
-                            olds.add(d.name)
-                ren = lambda s, _o=olds: "DELTA_OLD" if pretty(s) in _o else pretty(s)
-                got = to_poly(P, mod, xexpr, ren)
-                if name == "admit_packet":
-                    want = to_poly(P, mod, ast.parse("t_on / self._delta", mode="eval").body, ren)
-                else:
-                    want = to_poly(P, mod, ast.parse("(DELTA_OLD / delta_new) * (self._t_go - self._t_pg)", mode="eval").body, ren)
-                ctx.ob("C19.gate", fi.short(), "t_go:formula", repr(got) == repr(want),
-                       f"unclamped interval = {got!r}; equation gives {want!r}", f"{mod.rel}:{n.lineno}")
-                if name == "update_delta":
-                    conds = {norm(pretty(f.xkey)): f.pol for f in st.facts if f.kind == "cond"}
-                    closed = any(("self.is_open(t)" in k) and v is False for k, v in conds.items()) or \
-                        any("self._t_pgisNoneorself._t_goisNoneorself.is_open(t)" in k and v is False for k, v in conds.items())
-                    ctx.ob("C19.gate", fi.short(), "rescale-only-closed", closed,
-                           "B.2 rescaling happens only while the gate is closed and both times are set", f"{mod.rel}:{n.lineno}")
+        t = fi.params[1]
+        paths = [p for p in sym_paths(fi) if p.kind != "raise"]
+        res = {k: [] for k in ("shape", "reference", "clamp", "formula", "closed")}
+        n_here = 0
+        for p in paths:
+            sts = p.stored("self._t_go")
+            if not sts:
+                continue
+            n_here += 1
+            x = sts[-1][0]
+            if len(sts) != 1 or not (isinstance(x, ast.BinOp) and isinstance(x.op, ast.Add)):
+                res["shape"].append(f"t_go = `{unparse(x)[:110]}`")
+                continue
+            a, b = x.left, x.right
+            cl = _clamp(b, class_const)
+            if cl is None:
+                a, b = b, a
+                cl = _clamp(b, class_const)
+            if cl is None:
+                res["clamp"].append(f"interval `{unparse(x)[:90]}` is not t_ref + min(max(x, MIN), MAX)")
+                continue
+            xexpr, lo, hi = cl
+            if not (class_const(lo) == cmin and class_const(hi) == cmax and cmin is not None and cmax is not None):
+                res["clamp"].append(f"interval clamped to [{unparse(lo)}, {unparse(hi)}]")
+            if name == "admit_packet":
+                # B.1: t_go = t_pg + ..., with t_pg = the admission time stored on this very path
+                tpg = p.env.get("self._t_pg")
+                if not (tpg is not None and sem.same(tpg, t) and sem.same(a, t)):
+                    res["reference"].append(f"t_go anchored at `{unparse(a)}`, t_pg stored = `{unparse(tpg) if tpg is not None else None}`")
+                want = _parse("t_on / self._delta".replace("t_on", fi.params[2]))
+            else:
+                # B.2: anchored at the unchanged t_pg, old delta = the delta at entry, new delta = the parameter
+                if not (sem.same(a, "self._t_pg") and not p.stored("self._t_pg")):
+                    res["reference"].append(f"t_go anchored at `{unparse(a)}`")
+                want = _parse(f"(self._delta / {fi.params[2]}) * (self._t_go - self._t_pg)")
+                have = L.of(p.conds)
+                if not (L.holds(have, "self._t_pg is not None") and L.holds(have, "self._t_go is not None") and
+                        L.holds(have, f"self.is_open({t})", False)):
+                    res["closed"].append(sorted(have))
+            got = L.poly(xexpr)
+            if repr(got) != repr(L.poly(want)):
+                res["formula"].append(f"unclamped interval = {got!r}; equation gives {L.poly(want)!r}")
+        n_store += 1 if n_here else 0
+        eq = "B.1" if name == "admit_packet" else "B.2"
+        loc = fi.loc
+        ctx.ob("C19.gate", fi.short(), "t_go:shape", n_here > 0 and not res["shape"],
+               f"t_go = t_ref + clamp(...) ({n_here} storing path(s))" if not res["shape"] else res["shape"][0], loc)
+        ctx.ob("C19.gate", fi.short(), "t_go:reference", n_here > 0 and not res["reference"] and not res["shape"],
+               f"gate opening is scheduled relative to {'the admission time t = t_pg' if eq == 'B.1' else 'the stored t_pg'} (equation {eq})"
+               if not res["reference"] else f"{res['reference'][0]}; equation {eq} anchors it at {'t (= t_pg)' if eq == 'B.1' else 'self._t_pg'}", loc)
+        ctx.ob("C19.gate", fi.short(), "t_go:clamp", n_here > 0 and not res["clamp"] and not res["shape"],
+               f"interval clamped to [{cmin}, {cmax}] s" if not res["clamp"] else res["clamp"][0], loc)
+        ctx.ob("C19.gate", fi.short(), "t_go:formula", n_here > 0 and not res["formula"] and not res["shape"] and not res["clamp"],
+               f"unclamped interval is equation {eq}" if not res["formula"] else res["formula"][0], loc)
+        if name == "update_delta":
+            ctx.ob("C19.gate", fi.short(), "rescale-only-closed", n_here > 0 and not res["closed"],
+                   "B.2 rescaling happens only while the gate is closed and both times are set" if not res["closed"] else
+                   f"t_go is rescaled on a path where the gate is not known to be closed with both times set: {res['closed'][0][:6]}", loc)
+            # the new delta is taken over on EVERY normal exit
+            dnew = fi.params[2]
+            bad = [p for p in paths if not (p.env.get("self._delta") is not None and sem.same(p.env["self._delta"], dnew))]
+            ctx.ob("C19.gate", fi.short(), "delta-stored", bool(paths) and not bad,
+                   "every normal exit has stored the new delta" if paths and not bad else
+                   f"a normal exit is reachable without `self._delta = {dnew}` "
+                   f"(line {bad[0].stmt.lineno if bad and bad[0].stmt is not None else '?'}): the gate keeps scheduling with the old delta",
+                   loc)
+            allp = sym_paths(fi)
+            rais = [p for p in allp if p.kind == "raise" and L.holds(L.of(p.conds), f"{dnew} <= 0")]
+            okp = all(L.holds(L.of(p.conds), f"{dnew} > 0") for p in paths)
+            ctx.ob("C19.gate", fi.short(), "delta-positive", bool(rais) and okp and bool(paths) and all(not p.stores for p in rais),
+                   "non-positive delta rejected with an exception before any state is touched", loc)
     if n_store < 2:
-        raise AnalysisError(f"C19: {n_store} stores to GateKeeper._t_go found (confirmed: 2)")
-    # admit: True only after is_open and after both stores
+        raise AnalysisError(f"C19: stores to GateKeeper._t_go found in {n_store} method(s) (confirmed: 2)")
+    # admit: True only after is_open and after both stores; a rejected packet leaves the gate untouched
     fi = gk.methods["admit_packet"]
-    fl = ctx.flows.get(fi)
-    for k, s, st in fl.exits:
-        if k == "return" and P.try_fold(mod, s.value) is True:
-            conds = {norm(pretty(f.xkey)): f.pol for f in st.facts if f.kind == "cond"}
-            ctx.ob("C19.gate", fi.short(), "admit:open", conds.get("self.is_open(t)") is True, "admission requires is_open(t)",
-                   f"{mod.rel}:{s.lineno}")
-            ctx.ob("C19.gate", fi.short(), "admit:closes", "self._t_go" in st.defs and "self._t_pg" in st.defs,
-                   "admission stores both t_pg and t_go (gate closes: at most one packet per opening)", f"{mod.rel}:{s.lineno}")
-            ctx.ob("C19.gate", fi.short(), "admit:t_on-positive", conds.get("t_on>0.0") is True or conds.get("0.0>=t_on") is False
-                   or conds.get("t_on>0") is True, "non-positive t_on rejected", f"{mod.rel}:{s.lineno}")
+    t, t_on = fi.params[1], fi.params[2]
+    paths = [p for p in sym_paths(fi) if p.kind != "raise"]
+    yes = [p for p in paths if p.value is not None and P.try_fold(mod, p.value) is True]
+    no = [p for p in paths if p not in yes]
+    ctx.ob("C19.gate", fi.short(), "admit:open", bool(yes) and all(L.holds(L.of(p.conds), f"self.is_open({t})") for p in yes),
+           "admission requires is_open(t)", fi.loc)
+    ctx.ob("C19.gate", fi.short(), "admit:closes", bool(yes) and all(p.stored("self._t_go") and p.stored("self._t_pg") for p in yes),
+           "admission stores both t_pg and t_go (gate closes: at most one packet per opening)", fi.loc)
+    ctx.ob("C19.gate", fi.short(), "admit:t_on-positive", bool(yes) and all(L.holds(L.of(p.conds), f"{t_on} > 0") for p in yes),
+           "non-positive t_on rejected", fi.loc)
+    ctx.ob("C19.gate", fi.short(), "admit:reject-keeps-state",
+           all(not p.stores and p.value is not None and P.try_fold(mod, p.value) is False for p in no),
+           "a packet that is not admitted returns False and leaves t_pg / t_go untouched", fi.loc)
+    # is_open(t)  <=>  no opening scheduled  or  t >= t_go - epsilon
     io = gk.methods["is_open"]
-    src = norm(unparse(io.node))
-    ctx.ob("C19.gate", io.short(), "open-iff-reached", "returnt>=self._t_go-self._T_EPSILON" in src and "ifself._t_goisNone:returnTrue" in src,
-           "gate is open iff no opening is scheduled or t >= t_go (epsilon tolerance)", io.loc)
+    tt = io.params[1]
+    got = []
+    for p in sym_paths(io):
+        if p.kind == "raise":
+            continue
+        if p.value is None:
+            continue            # returns None: falsy
+        base = [frozenset()]
+        for c, pol in p.conds:
+            base = L._and(base, L.dnf(c, pol))
+        got += L._and(base, L.dnf(p.value, True))
+    want = L.dnf(_parse(f"self._t_go is None or {tt} >= self._t_go - self._T_EPSILON"), True)
+    eqv = L.equivalent(got, want)
+    if eqv is None:
+        raise AnalysisError("C19: GateKeeper.is_open has too many distinct conditions for the truth-table comparison")
+    ctx.ob("C19.gate", io.short(), "open-iff-reached", eqv,
+           "gate is open iff no opening is scheduled or t >= t_go (epsilon tolerance)" if eqv else
+           f"is_open is true under {[sorted(m) for m in got][:3]}; must be equivalent to `t_go is None or t >= t_go - eps`", io.loc)
     eps = P.try_fold(mod, gk.fields["_T_EPSILON"][1])
     ctx.ob("C19.gate", io.short(), "epsilon-small", isinstance(eps, float) and 0 <= eps <= 1e-6, f"epsilon = {eps}", io.loc)
-    ud = gk.methods["update_delta"]
-    fl = ctx.flows.get(ud)
-    raises = [(s, st) for k, s, st in fl.exits if k == "raise"]
-    ok = any(any(norm(pretty(f.xkey)) in ("0.0>=delta_new", "0>=delta_new") and f.pol for f in st.facts) for s, st in raises)
-    ctx.ob("C19.gate", ud.short(), "delta-positive", ok, "non-positive delta rejected with ValueError", ud.loc)
-    ctx.floor("C19.gate", 14)
+    ctx.floor("C19.gate", 18)
 
 
-def _clamp(e):
-    """min(max(x, L), H) / max(min(x, H), L) -> (x, L, H)"""
-    if isinstance(e, ast.Call) and dotted(e.func) in ("min", "max") and len(e.args) == 2:
+def _clamp(e, const=None):
+    """min(max(x, L), H) / max(min(x, H), L) -> (x, L, H); a bound is an operand that `const` evaluates to a number
+    (default: a plain name / attribute chain)."""
+    const = const or (lambda n: 0 if dotted(n) is not None else None)
+    if isinstance(e, ast.Call) and dotted(e.func) in ("min", "max") and len(e.args) == 2 and not e.keywords:
         outer = dotted(e.func)
         for inner, bound in ((e.args[0], e.args[1]), (e.args[1], e.args[0])):
-            if isinstance(inner, ast.Call) and dotted(inner.func) in ("min", "max") and dotted(inner.func) != outer and len(inner.args) == 2:
-                # the inner bound is the argument that is a plain name / attribute constant
-                cands = [(inner.args[0], inner.args[1]), (inner.args[1], inner.args[0])]
-                for x, b2 in cands:
-                    if dotted(b2) is not None and (dotted(b2).isupper() or dotted(b2).split(".")[-1].isupper()):
+            if isinstance(inner, ast.Call) and dotted(inner.func) in ("min", "max") and dotted(inner.func) != outer and len(inner.args) == 2 \
+                    and not inner.keywords and const(bound) is not None:
+                for x, b2 in ((inner.args[0], inner.args[1]), (inner.args[1], inner.args[0])):
+                    if const(b2) is not None and const(x) is None:
                         return (x, b2, bound) if outer == "min" else (x, bound, b2)
     return None
